@@ -22,6 +22,11 @@ fn virt_elapsed() -> std::time::Duration {
     let t0 = CLOCK_T0.with(|c| match c.get() { Some(t) => t, None => { c.set(Some(now)); now } });
     now.saturating_duration_since(t0)
 }
+/// Origin of the current run's virtual clock.
+pub fn clock_t0() -> Instant {
+    let now = tokio::time::Instant::now();
+    CLOCK_T0.with(|c| match c.get() { Some(t) => t, None => { c.set(Some(now)); now } })
+}
 /// Call at the start of every simulated run.
 pub fn reset_clock(unix_base_ms: u64) {
     CLOCK_T0.with(|c| c.set(Some(tokio::time::Instant::now())));
